@@ -128,7 +128,9 @@ package ldb
 //@   ensures slice != nil && len(old(slice.Limit)) > 0 ==> strOf(result.(*levelIterator).slice.Limit) == old(ikey(b, slice.Limit))
 //@   ensures slice != nil ==> strOf(result.(*levelIterator).slice.Start) == old(ikey(b, slice.Start))
 //@   ensures slice == nil ==> strOf(result.(*levelIterator).slice.Start) == b.path + "_"
-//@   ensures (slice == nil || len(old(slice.Limit)) == 0) ==> isPrefixSucc(b.innerKeyForIterator(nil), result.(*levelIterator).slice.Limit)
+// without a limit: the exclusive bound is path ++ "`" (0x60 = '_' + 1), i.e. exactly the keys under path_
+//@   ensures (slice == nil || len(old(slice.Limit)) == 0) ==> len(result.(*levelIterator).slice.Limit) == b.pathLen + 1 && result.(*levelIterator).slice.Limit[b.pathLen] == 0x60
+//@   ensures (slice == nil || len(old(slice.Limit)) == 0) ==> bytesEq(result.(*levelIterator).slice.Limit, 0, b.path, 0, b.pathLen)
 
 // the exclusive upper bound of all keys with prefix p (p not all 0xff): p cut after its last byte below 0xff, that byte + 1
 //@ define isPrefixSucc(p, lim) = (lim != nil && 1 <= len(lim) && len(lim) <= len(p) && (forall qj_ int :: 0 <= qj_ && qj_ < len(lim)-1 ==> lim[qj_] == p[qj_]) && mathint(lim[len(lim)-1]) == mathint(p[len(lim)-1]) + 1 && (forall qj_ int :: len(lim) <= qj_ && qj_ < len(p) ==> p[qj_] == 0xff))
